@@ -1242,6 +1242,10 @@ class TimeGPSWeekSec(TimeFormat):
             if val.ndim == 2 and val.shape[-1] == cls.ndim:
                 week = val[:, 0]
                 sec = val[:, 1]
+            elif val.ndim == 1 and val.shape[-1] == cls.ndim:
+                # A single epoch (week, seconds, day), e.g. when one element of an array is copied
+                week = val[0]
+                sec = val[1]
             else:
                 raise ValueError(f"val2 should be seconds (not {val2}) for format {cls.fmt}")
         else:
